@@ -254,6 +254,9 @@ func (h *DNSHandler) ProcessNBNS(host *packet.Host, ether packet.Ether, payload 
 		switch h.Type {
 		case 0x20:
 			fmt.Println("nbns unexpected name answer", h.Type)
+			if err := p.SkipAnswer(); err != nil { // must consume the record or the loop never advances
+				return name, err
+			}
 
 		case 0x21:
 			r, err := p.UnknownResource()
@@ -273,6 +276,9 @@ func (h *DNSHandler) ProcessNBNS(host *packet.Host, ether packet.Ether, payload 
 				}
 			*/
 			fmt.Println("nbns : ignoring invalid header type", h.Type)
+			if err := p.SkipAnswer(); err != nil { // must consume the record or the loop never advances
+				return name, err
+			}
 		}
 	}
 
